@@ -63,7 +63,11 @@ func (p *watPrinter) printImport_func(importSpec *ast.ImportSpec) {
 	fnType := importSpec.FuncType
 	if len(fnType.Params) > 0 {
 		for _, x := range fnType.Params {
-			fmt.Fprintf(p.w, " (param %v)", x.Type)
+			if x.Name != "" {
+				fmt.Fprintf(p.w, " (param $%s %v)", x.Name, x.Type)
+			} else {
+				fmt.Fprintf(p.w, " (param %v)", x.Type)
+			}
 		}
 	}
 	if len(fnType.Results) > 0 {
